@@ -126,7 +126,7 @@ def reference_tbs(crypto, art):
                 "V6": [Prim("OCTET STRING", P(san, via=["octets"]))]})])],
             "OtherName": [Tagged(0, "implicit", [Seq([Prim("OID", P(san)), Tagged(0, "explicit", [Choice(el + "#OtherName.0.1", {"Utf8String": [Prim("UTF8String", P(san))]})])])])],
         })])])])]),
-        Cond("!empty(self.key_usages)", [ext(R.OID_KU, True, [Prim("BIT STRING", P("self.key_usages", via=["KeyUsagePurpose::to_u16"]))])]),
+        Cond("!empty(self.key_usages)", [ext(R.OID_KU, True, [Prim("BIT STRING", P("self.key_usages", via=["KeyUsagePurpose::to_u16"], loose=True))])]),
         Cond("!empty(self.extended_key_usages)", [ext(R.OID_EKU, False, [Seq([Rep("self.extended_key_usages", [Prim("OID", P("self.extended_key_usages", via=["ExtendedKeyUsagePurpose::oid"]))])])])]),
         Cond(NC_NONEMPTY, [ext(R.OID_NC, True, [Seq([
             general_subtrees(0, "self.name_constraints?.permitted_subtrees"),
